@@ -4,6 +4,7 @@ go 1.23.0
 
 require (
 	github.com/a-h/templ v0.0.0
+	github.com/andybalholm/brotli v1.1.0
 	golang.org/x/net v0.37.0
 	pgregory.net/rapid v1.3.0
 	rogchap.com/v8go v0.9.0
